@@ -12,7 +12,7 @@ import (
 	"github.com/echoface/be_indexer/roaringidx"
 )
 
-const c10Rule = "histories of 20..200 retrievals interleaved over 1..3 posting-list indexes (k-groups and compact, default/pattern/range fields) and a roaring index that share the process-wide collector and bitmap pools; about 15% of the retrievals fail (unsupported value on a known field), debug options on at random, plain Retrieve and recording-collector passes, roaring scanners reset or re-created; each answer is compared with the pure model and the specification in Coq, a tenth of them also with a freshly built real index, and every assignment is deep-copied before the call and compared after. Non-trivial = the history contains a failing retrieval followed by a successful one that returns documents; distinct = distinct input"
+const c10Rule = "histories of 20..200 retrievals interleaved over 1..3 posting-list indexes (k-groups and compact, default/pattern/range fields) and a roaring index that share the process-wide collector and bitmap pools; about 15% of the retrievals fail (unsupported value on a known field), debug options on at random, plain Retrieve and recording-collector passes, roaring scanners reset or re-created; each answer is compared with the pure model and the specification in Coq, a tenth of them also with a freshly built real index, and every assignment is deep-copied before the call and compared after. every other list Retrieve returns is overwritten in place by the caller, the others are kept and re-read at the end; a dedicated history of untargeted retrievals (empty assignment, unknown fields, nil values) on indexes with match-everything conjunctions; Non-trivial = the history contains a failing retrieval followed by a successful one that returns documents; distinct = distinct input"
 
 type histCase struct {
 	Hist10     bool    `json:"hist10"`
@@ -285,6 +285,25 @@ func init() {
 					}
 					add(h)
 				}
+			}
+			// dedicated: untargeted retrievals (empty assignment, unknown fields only, nil values only) on an index with
+			// match-everything conjunctions, repeated while the caller overwrites the lists it got
+			for _, kind := range []string{"kgroups", "compact"} {
+				c := eCase{Kind: kind, Policy: "error"}
+				c.Docs = []eDoc{
+					{ID: 1, Cons: []eConj{{{F: 0, Inc: false, V: tvSlice("[]int", tvInt("int", 1))}}}},
+					{ID: 2, Cons: []eConj{{}}},
+					{ID: 3, Cons: []eConj{{{F: 0, Inc: true, V: tvSlice("[]int", tvInt("int", 2))}}, {{F: 1, Inc: false, V: tvStr("x")}}}},
+					{ID: 4, Cons: []eConj{{{F: 0, Inc: true, V: tvSlice("[]int", tvInt("int", 2))}}}},
+				}
+				none, unk, nilv := eQuery{}, eQuery{A: []eAssign{{F: 5, V: tvStr("q")}}}, eQuery{A: []eAssign{{F: 0, V: tvNil()}}}
+				two := eQuery{A: []eAssign{{F: 0, V: tvInt("int", 2)}}}
+				c.Queries = []eQuery{none, none, unk, none, two, nilv, none, unk, two, none, none}
+				h := histCase{Hist10: true, Cases: []eCase{c}}
+				for range c.Queries {
+					h.Order = append(h.Order, 0)
+				}
+				add(h)
 			}
 			// roaring histories with failing retrievals: a retrieval that fails half-way (after some field's
 			// bitmaps went into the temporary bitmap) must not leak into later retrievals of ANY scanner
